@@ -413,6 +413,47 @@ macro_rules! conv_bisim {
     }};
 }
 
+/// conversions of a vector dual number to a plain float (simba's SupersetOf<f32 / f64>): membership,
+/// the checked and the unchecked extraction must not depend on the encoding
+macro_rules! conv_float_bisim {
+    ($st:expr, $sup:ty, $fl:ty, $d:expr) => {{
+        use simba::scalar::SupersetOf;
+        let d: Dims = $d;
+        let lp = <$sup as Subject<f64>>::layout(d);
+        for a in alpha_alphabet::<f64>(&lp, &[2.0, -0.5, 0.0], 0) {
+            let encs = encodings(&lp, &a);
+            let mut first: Option<(bool, Option<u64>, u64, Option<u64>)> = None;
+            for p in &encs {
+                let x: $sup = <$sup as Subject<f64>>::build(d, p);
+                $st.evaluations += 4;
+                $st.transitions += 4;
+                $st.state(hash64(&(lp.type_name.as_str(), "to-float", stringify!($fl), p.bits(), p.present.clone())));
+                let member = <$sup as SupersetOf<$fl>>::is_in_subset(&x);
+                let checked: Option<$fl> = <$sup as SupersetOf<$fl>>::to_subset(&x);
+                let unchecked: $fl = <$sup as SupersetOf<$fl>>::to_subset_unchecked(&x);
+                let tried: Option<$fl> = nalgebra::try_convert::<$sup, $fl>(x.clone());
+                let cur = (member, checked.map(|v| (v as f64).to_bits()), (unchecked as f64).to_bits(), tried.map(|v| (v as f64).to_bits()));
+                match &first {
+                    None => first = Some(cur),
+                    Some(f0) => {
+                        if *f0 != cur {
+                            $st.violation(Violation {
+                                sig: format!("convert {} -> {} encodings-disagree", lp.type_name, stringify!($fl)),
+                                case: json!({"type": lp.type_name, "target": stringify!($fl), "value": parts_to_json(p)}),
+                                what: format!("conversion to {} of the encoding with presence {:?} gives (is_in_subset, to_subset, to_subset_unchecked, try_convert) = {:?}, the all-explicit encoding gives {:?}", stringify!($fl), p.present, cur, f0),
+                            });
+                            break;
+                        }
+                    }
+                }
+            }
+            if encs.len() > 1 {
+                $st.nontrivial(hash64(&(lp.type_name.as_str(), "to-float", stringify!($fl), a.vals.iter().map(|v| v.to_bits()).collect::<Vec<_>>())));
+            }
+        }
+    }};
+}
+
 /// nalgebra's field interface on the vector types: every method must give the same result for every
 /// encoding of the same alpha-operands
 macro_rules! field_bisim {
@@ -494,6 +535,109 @@ macro_rules! field_bisim {
     }};
 }
 
+/// the operator forms of the public part type `Derivative` itself (the number types use only some
+/// of them internally): every owned / borrowed / in-place form of + - neg, scaling by the inner
+/// number, the outer products `&a * &b` and `a.tr_mul(&b)`, for every encoding of all-zero
+/// operands, against plain nalgebra matrix arithmetic on the explicit matrices
+fn derivative_operators(st: &mut Stats) {
+    use nalgebra::{Const, Dyn, OMatrix, U1, U2};
+    use num_dual::Derivative;
+    type M21 = OMatrix<f64, U2, U1>;
+    type M12 = OMatrix<f64, U1, U2>;
+    type D21 = Derivative<f64, f64, U2, U1>;
+    type D12 = Derivative<f64, f64, U1, U2>;
+    let fail = |st: &mut Stats, form: &str, what: String| {
+        st.violation(Violation { sig: format!("derivative-operator {form}"), case: json!({"form": form}), what });
+    };
+    // alpha values of the column operands a, b (2 x 1) and of the row operand c (1 x 2)
+    let cols = [M21::new(0.0, 0.0), M21::new(0.75, -1.25), M21::new(2.5, -0.375)];
+    let rows = [M12::new(0.0, 0.0), M12::new(1.625, -2.75)];
+    // (value, is present)
+    let encs21 = |m: &M21| -> Vec<(D21, bool)> { if m.iter().all(|v| *v == 0.0) { vec![(D21::none(), false), (D21::some(*m), true)] } else { vec![(D21::some(*m), true)] } };
+    let encs12 = |m: &M12| -> Vec<(D12, bool)> { if m.iter().all(|v| *v == 0.0) { vec![(D12::none(), false), (D12::some(*m), true)] } else { vec![(D12::some(*m), true)] } };
+    let al21 = |d: &D21| -> M21 { d.clone().unwrap_generic(Const::<2>, Const::<1>) };
+    for am in &cols {
+        for bm in &cols {
+            for (a, pa) in encs21(am) {
+                for (b, pb) in encs21(bm) {
+                    let forms: Vec<(&str, D21, M21)> = vec![
+                        ("a + b", a.clone() + b.clone(), am + bm),
+                        ("a + &b", a.clone() + &b, am + bm),
+                        ("&a + &b", &a + &b, am + bm),
+                        ("a - b", a.clone() - b.clone(), am - bm),
+                        ("a - &b", a.clone() - &b, am - bm),
+                        ("&a - &b", &a - &b, am - bm),
+                        ("a += b", { let mut r = a.clone(); r += b.clone(); r }, am + bm),
+                        ("a -= b", { let mut r = a.clone(); r -= b.clone(); r }, am - bm),
+                        ("-a", -a.clone(), -am),
+                        ("-&a", -&a, -am),
+                        ("a * s", a.clone() * 1.5, am * 1.5),
+                        ("&a * s", &a * 1.5, am * 1.5),
+                        ("a / s", a.clone() / 4.0, am / 4.0),
+                        ("&a / s", &a / 4.0, am / 4.0),
+                        ("a *= s", { let mut r = a.clone(); r *= 1.5; r }, am * 1.5),
+                        ("a /= s", { let mut r = a.clone(); r /= 4.0; r }, am / 4.0),
+                    ];
+                    for (name, got, want) in forms {
+                        st.evaluations += 1;
+                        st.transitions += 1;
+                        let key = hash64(&("derivative-operator", name, pa, pb, am.iter().map(|v| v.to_bits()).collect::<Vec<_>>(), bm.iter().map(|v| v.to_bits()).collect::<Vec<_>>()));
+                        st.state(key);
+                        if !pa || !pb {
+                            st.nontrivial(key);
+                        }
+                        if al21(&got) != want {
+                            fail(st, name, format!("{name} with presence ({pa}, {pb}) of a = {:?}, b = {:?} gives {:?}, the matrix operation gives {:?}", am.as_slice(), bm.as_slice(), al21(&got).as_slice(), want.as_slice()));
+                        }
+                    }
+                    // a^T b (1 x 1)
+                    let t = a.tr_mul(&b).unwrap_generic(Const::<1>, Const::<1>);
+                    let want = am.tr_mul(bm);
+                    st.evaluations += 1;
+                    if t[(0, 0)] != want[(0, 0)] {
+                        fail(st, "a.tr_mul(&b)", format!("tr_mul with presence ({pa}, {pb}) gives {}, want {}", t[(0, 0)], want[(0, 0)]));
+                    }
+                }
+                // outer product a (2 x 1) * c (1 x 2)
+                for cm in &rows {
+                    for (c, pc) in encs12(cm) {
+                        let got = (&a * &c).unwrap_generic(Const::<2>, Const::<2>);
+                        let want = am * cm;
+                        st.evaluations += 1;
+                        if got != want {
+                            fail(st, "&a * &c", format!("outer product with presence ({pa}, {pc}) gives {:?}, want {:?}", got.as_slice(), want.as_slice()));
+                        }
+                    }
+                }
+            }
+        }
+    }
+    // dynamically sized parts of length 3
+    type DD = Derivative<f64, f64, Dyn, U1>;
+    let v = nalgebra::DVector::from_vec(vec![0.5, -1.5, 2.25]);
+    let w = &v * 2.0;
+    let z = nalgebra::DVector::from_vec(vec![0.0, 0.0, 0.0]);
+    for (a, am, pa) in [(DD::none(), &z, false), (DD::some(z.clone()), &z, true), (DD::some(v.clone()), &v, true)] {
+        for (b, bm, pb) in [(DD::none(), &z, false), (DD::some(z.clone()), &z, true), (DD::some(w.clone()), &w, true)] {
+            let alpha = |d: &DD| d.clone().unwrap_generic(Dyn(3), Const::<1>);
+            let forms: Vec<(&str, DD, nalgebra::DVector<f64>)> = vec![
+                ("dyn a + b", a.clone() + b.clone(), am + bm),
+                ("dyn &a + &b", &a + &b, am + bm),
+                ("dyn a - &b", a.clone() - &b, am - bm),
+                ("dyn &a - &b", &a - &b, am - bm),
+                ("dyn a += b", { let mut r = a.clone(); r += b.clone(); r }, am + bm),
+                ("dyn a -= b", { let mut r = a.clone(); r -= b.clone(); r }, am - bm),
+            ];
+            for (name, got, want) in forms {
+                st.evaluations += 1;
+                if alpha(&got) != want {
+                    fail(st, name, format!("{name} with presence ({pa}, {pb}) gives {:?}, want {:?}", alpha(&got).as_slice(), want.as_slice()));
+                }
+            }
+        }
+    }
+}
+
 fn field_interface(st: &mut Stats) {
     use nalgebra::{Const, Dyn};
     use num_dual::*;
@@ -514,6 +658,11 @@ fn conversions(st: &mut Stats) {
     conv_bisim!(st, Dual2Vec<f64, f64, Const<2>>, Dual2Vec<f32, f32, Const<2>>, f32, Dims::n(2));
     conv_bisim!(st, Dual2Vec<f64, f64, Dyn>, Dual2Vec<f32, f32, Dyn>, f32, Dims::n(2));
     conv_bisim!(st, Dual2Vec<f64, f64, Dyn>, Dual2Vec<f64, f64, Dyn>, f64, Dims::n(1));
+    conv_float_bisim!(st, DualVec<f64, f64, Const<2>>, f64, Dims::n(2));
+    conv_float_bisim!(st, DualVec<f64, f64, Const<2>>, f32, Dims::n(2));
+    conv_float_bisim!(st, DualVec<f64, f64, Dyn>, f64, Dims::n(3));
+    conv_float_bisim!(st, Dual2Vec<f64, f64, Const<2>>, f64, Dims::n(2));
+    conv_float_bisim!(st, Dual2Vec<f64, f64, Dyn>, f32, Dims::n(1));
 }
 
 fn universe(tier: Tier, v: &mut impl Visitor) {
@@ -598,6 +747,7 @@ fn main() {
     universe(tier, &mut e);
     conversions(e.stats);
     field_interface(e.stats);
+    derivative_operators(e.stats);
     let axes = std::mem::take(&mut e.axes);
     let classes = e.classes_total;
     let capped = axes.iter().any(|a| a["frontier_capped"].as_bool().unwrap_or(false));
@@ -606,7 +756,7 @@ fn main() {
         mode: cli.mode,
         seed: cli.seed,
         start,
-        rule: "abstraction alpha: absent part -> zeros. (a) every operation of a 53-operation alphabet, the checked / unchecked narrowing and identity conversions and 20 methods of nalgebra's field interface on DualVec and Dual2Vec, x alpha-operand tuples (each group zero or non-zero, two real parts) x ALL 2^k encodings of the zero groups as absent or explicit zeros; (b) BFS over histories of 13 accumulator updates (compound assignments with dual and scalar operands, y - acc, y / acc, neg, recip, sqrt) x y in every encoding, from every encoding of the accumulator; a state is an alpha-class (alpha value bits + the set of concrete presence patterns that reach it), de-duplicated per depth. Oracle: alpha(result) is the same number in every slot for all encodings (bisimulation), and equals the exact rational reference where no rounding can occur. Non-trivial = alpha tuple reached through more than one encoding.".into(),
+        rule: "abstraction alpha: absent part -> zeros. (a) every operation of a 53-operation alphabet, the checked / unchecked narrowing and identity conversions and 20 methods of nalgebra's field interface on DualVec and Dual2Vec, x alpha-operand tuples (each group zero or non-zero, two real parts) x ALL 2^k encodings of the zero groups as absent or explicit zeros; (b) BFS over histories of 13 accumulator updates (compound assignments with dual and scalar operands, y - acc, y / acc, neg, recip, sqrt) x y in every encoding, from every encoding of the accumulator; a state is an alpha-class (alpha value bits + the set of concrete presence patterns that reach it), de-duplicated per depth. Oracle: alpha(result) is the same number in every slot for all encodings (bisimulation), and equals the exact rational reference where no rounding can occur. Non-trivial = alpha tuple reached through more than one encoding. (d) conversions of vector dual numbers to other widths and to plain floats, nalgebra's field interface incl. ties of the real parts, and every operator form of the public part type Derivative, for every encoding.".into(),
         assumptions: vec!["signed zeros are identified (0 - r vs -r); NaN equals NaN".into(), "history frontier capped per depth and type when it exceeds the cap (reported as frontier_capped)".into()],
         extra: json!({"axes": axes, "alpha_classes": classes}),
         exhaustive: !capped,
